@@ -11,7 +11,7 @@ starts in state `st0` at byte index `cur` it tracks
 * `cov`   – the byte `cur` lies in a lexeme that was completed in this step;
 * `star`  – an `AnnotationEnd` two bytes back was found: the bytes `cur-1`, `cur` are the closing `*/`;
 * `pstar` – the condition `prevIsStar` holds on this path;
-* `seal`  – an End / context event was found already in this step (used for the shape of the event queue);
+* `sld`  – an End / context event was found already in this step (used for the shape of the event queue);
 * `rew`   – the pending rewind; `reg` – the step register; `P` – the path condition on the byte.
 
 When the step ends (`return nil`) without a rewind, the byte `cur` has to be accounted for: it lies in a
@@ -80,7 +80,7 @@ structure TV where
   cov : Bool
   star : Bool
   pstar : Bool
-  seal : Bool
+  sld : Bool
   rew : Nat
   reg : Option St
   P : PathCond
@@ -114,14 +114,14 @@ def tOp (K : Ctx) (a : TV) : Op St → Option TV
     if e.isBeginning then
       if a.opn.isNone && back == 0 then some { a with opn := some e, fresh := true } else none
     else if e.isEnding then
-      if a.opn.isNone || (a.seal && !a.P.eofOnly) then none
-      else if back == 0 then some { a with opn := none, fresh := false, cov := true, seal := true }
-      else if back == 1 then some { a with opn := none, fresh := false, seal := true }
+      if a.opn.isNone || (a.sld && !a.P.eofOnly) then none
+      else if back == 0 then some { a with opn := none, fresh := false, cov := true, sld := true }
+      else if back == 1 then some { a with opn := none, fresh := false, sld := true }
       else if back == 2 && a.pstar && within a.P [47] && e == .annotationEnd && !K.sign0 then
-        some { a with opn := none, fresh := false, star := true, seal := true }
+        some { a with opn := none, fresh := false, star := true, sld := true }
       else none
     else
-      if a.opn.isNone && back == 0 && a.P.nonzero then some { a with cov := true, seal := true } else none
+      if a.opn.isNone && back == 0 && a.P.nonzero then some { a with cov := true, sld := true } else none
 
 def tOps (K : Ctx) (a : TV) : List (Op St) → Option TV
   | [] => some a
@@ -152,6 +152,10 @@ def doneOK (K : Ctx) (a : TV) : Bool :=
 def libOK (K : Ctx) (a : TV) (closing : St) : Bool :=
   a.opn.isNone && a.rew == 0 && !K.sign0 && !inComment closing && !isSign closing
 
+/-- a state popped from the step stack is continued in after an End / context event only on these bytes
+(line end, end of input) -/
+def sealBytes : List UInt8 := [10, 13, 0]
+
 def tCont (K : Ctx) (run : St → TV → Bool) (a : TV) : Cont St → Bool
   | .done => doneOK K a
   | .err => true
@@ -159,7 +163,7 @@ def tCont (K : Ctx) (run : St → TV → Bool) (a : TV) : Cont St → Bool
   | .redispatch =>
     (match a.reg with
      | some r => run r a
-     | none => a.rew == 0 && !a.star && !K.sign0 && a.opn.isNone)
+     | none => a.rew == 0 && !a.star && !K.sign0 && a.opn.isNone && (!a.sld || within a.P sealBytes))
   | .jschema => libOK K a .stateSchemaClosed
   | .enumBody => libOK K a .stateEnumBodyClose
 
@@ -178,15 +182,15 @@ def tRun (K : Ctx) : Nat → St → TV → Bool
   | 0, _, _ => false
   | f + 1, st, a => tCode K (tRun K f) a (code st)
 
-def entryTV (opn : Option Ev) (st : St) (seal : Bool) : TV :=
-  { opn := opn, fresh := false, cov := false, star := false, pstar := false, seal := seal, rew := 0,
-    reg := some st, P := .top }
+def entryTV (opn : Option Ev) (st : St) (sld : Bool) : TV :=
+  { opn := opn, fresh := false, cov := false, star := false, pstar := false, sld := sld, rew := 0,
+    reg := some st, P := if sld then ⟨some sealBytes, []⟩ else .top }
 
 /-- **the table check of one state function** (`c` is its decision tree): with the certificate of
 `ScanLex` ("which Begin event is open in this state"), every path through the tree — and through the
 state functions it continues in on the same byte — either ends in a diagnostic, or accounts for the byte:
 it is part of a lexeme, or trivia (`doneOK`).  A state that can be on the step stack is checked a second
-time for being continued in after an End / context event of the same step (`seal`). -/
+time for being continued in after an End / context event of the same step (`sld`). -/
 def silentOK (c : Code St) (st : St) : Bool :=
   match certs.cert st with
   | none => true
@@ -217,30 +221,34 @@ def lastSetStep (cur : Option St) : List (Op St) → Option St
   | .popToStep :: r => lastSetStep none r
   | _ :: r => lastSetStep cur r
 
-/-- the leaf the end-of-input byte selects in `st`, for every valuation of the conditions: the first thing
-it does about events is finding the End that matches the open Begin `b`, or it is a diagnostic; a leaf that
-finds nothing may continue in another state function on the same byte -/
-def eofLeafOK (b : Ev) : Nat → St → Bool
-  | 0, _ => false
-  | f + 1, st =>
-    (ScanSafe.leavesEof (code st)).all fun l =>
-      match firstFound l.1 with
-      | some e => b.matches e
-      | none =>
-        match l.2 with
-        | .err => true
-        | .call s => eofLeafOK b f s
-        | .redispatch =>
-          (match lastSetStep (some st) l.1 with
-           | some r => eofLeafOK b f r
-           | none => false)
-        | _ => false
+/-- the leaves the end-of-input byte selects in the tree `c` (for every valuation of the conditions), run
+with step register `reg`: the first thing such a leaf does about events is finding the End that matches the
+open Begin `b`, or it is a diagnostic; a leaf that finds nothing may continue in another state function on
+the same byte (`run`) -/
+def eofCodeOK (b : Ev) (run : St → Option St → Bool) (reg : Option St) (c : Code St) : Bool :=
+  (ScanSafe.leavesEof c).all fun l =>
+    match firstFound l.1 with
+    | some e => b.matches e
+    | none =>
+      match l.2 with
+      | .err => true
+      | .call s => run s (lastSetStep reg l.1)
+      | .redispatch =>
+        (match lastSetStep reg l.1 with
+         | some r => run r (some r)
+         | none => false)
+      | _ => false
 
-/-- **(3)** for a state in which a lexeme is open (certificate `ScanSafe.cert.oe` of C01): at the end of
-input the lexeme is closed or the scan is rejected — unless the state is a listed exception -/
-def eofOK (_c : Code St) (st : St) : Bool :=
+def eofRun (b : Ev) : Nat → St → Option St → Bool
+  | 0, _, _ => false
+  | f + 1, st, reg => eofCodeOK b (eofRun b f) reg (code st)
+
+/-- **(3)** for a state in which a lexeme is open (certificate `ScanSafe.cert.oe` of C01; `c` is the
+decision tree of the state): at the end of input the lexeme is closed or the scan is rejected — unless the
+state is a listed exception -/
+def eofOK (c : Code St) (st : St) : Bool :=
   match ScanSafe.cert.oe st with
   | none => true
-  | some b => eofExc st || eofLeafOK b absFuel st
+  | some b => eofExc st || eofCodeOK b (eofRun b absFuel) (some st) c
 
 end JSight.ScanTrivia
